@@ -2024,10 +2024,11 @@ class Tensor:
         if isinstance(other, Number) or (
             isinstance(other, np.ndarray) and other.ndim == 0
         ):
-            if other == 1:
-                return self._op(Positive, self)
-            elif other == 2:
-                return self._op(Square, self)
+            if other == 1 or other == 2:
+                # the exponent still takes part in type promotion, as in `Power`
+                dtype = np.result_type(self.data, other)
+                kwargs = {} if dtype == self.dtype else {"dtype": dtype}
+                return self._op(Positive if other == 1 else Square, self, op_kwargs=kwargs)
 
         return self._op(Power, self, other)
 
